@@ -132,6 +132,7 @@ func checkC11(c *Ctx, r *Report) {
 	ruleReaderProtocol(c, r, "reader-protocol", false)
 	ruleParserProtocol(c, r, "parser-protocol")
 	ruleParserDrains(c, r, "parser-drains")
+	ruleNoAbruptExit(c, r, "no-abrupt-exit")
 	ruleLexerStops(c, r, "lexer-stops")
 	ruleFullRune(c, r, "empty-chunk-not-eof")
 	r.rule("single-receive", 1, "the lexer receives from its input channel at exactly one place (next)")
